@@ -583,13 +583,15 @@ class StructureSimilarity(object):
         xyz_ref_B = np.array(sql_ref.get(
             'x,y,z', chainID=chain2, **kwargs))
 
-        # check the lengthes
-        if self.check_residues(**kwargs) is False:
-            xyz_decoy_A, xyz_ref_A = self.get_identical_atoms(
-                sql_decoy, sql_ref, chain1, **kwargs)
+        # check the residues (raises or warns if they differ) and pair the
+        # atoms of decoy and reference by identity: the order of the records
+        # in the two files need not be the same
+        self.check_residues(**kwargs)
+        xyz_decoy_A, xyz_ref_A = self.get_identical_atoms(
+            sql_decoy, sql_ref, chain1, **kwargs)
 
-            xyz_decoy_B, xyz_ref_B = self.get_identical_atoms(
-                sql_decoy, sql_ref, chain2, **kwargs)
+        xyz_decoy_B, xyz_ref_B = self.get_identical_atoms(
+            sql_decoy, sql_ref, chain2, **kwargs)
 
         # detect which chain is the longest with the rule of compute_lzone:
         # number of atoms in the reference, first chain if equal
